@@ -69,7 +69,7 @@ fn mk_c19() -> Vec<Box<dyn Monitor>> {
     vec![Box::new(mon::c19::C19)]
 }
 fn mk_c04() -> Vec<Box<dyn Monitor>> {
-    vec![Box::new(mon::byz::C04::new())]
+    vec![Box::new(mon::byz::C04::new()), Box::new(mon::frame::C04Frame)]
 }
 fn mk_c15() -> Vec<Box<dyn Monitor>> {
     vec![Box::new(mon::byz::C15::new())]
@@ -259,7 +259,7 @@ fn specs() -> Vec<CheckSpec> {
     CheckSpec {
         id: "C04",
         profile: Profile::Byz,
-        more_profiles: &[Profile::Byz, Profile::Lifecycle],
+        more_profiles: &[Profile::Admin, Profile::Byz, Profile::Lifecycle, Profile::Byz, Profile::Rewards],
         mk: mk_c04,
         level: "fault_enumeration",
         rule: "worlds with 2-3 pools (static and adaptive-fee), rewards, admin / creator / reward-authority / life-cycle LP / router actors, so that histories contain every privileged instruction kind; the Byzantine-client fault replays each successful privileged instruction on forks of its pre-state (where it is known to succeed as is) with one mutation: (a) the authority slot replaced by a fresh attacker key that signs, (b) the right key with the signer flag cleared (when it signs nowhere else), and for position / bundle authorities (c) the attacker as delegate of the position token account with delegated amount 0, 1, 2 (1 may succeed, 0 and 2 must not) and (d) the attacker as owner of an empty token account of the position mint; every mutation except delegate(1) must be rejected; the matrix is reported cell by cell (probes `cell: instruction / slot / mutation`); a case is one (instruction, slot, mutation) cell",
